@@ -108,28 +108,7 @@ func genC09(concurrent bool) func(rng *Rng, sc *Scenario) {
 			if len(rq.Over) > 0 {
 				continue
 			}
-			dry := SoloTwin(sc, rq, BuildOpt{})
-			var ids []string
-			seen := map[string]bool{}
-			for _, it := range dry.Trace {
-				if it.K == "enter" && !seen[it.H] && it.H != "p0" {
-					seen[it.H] = true
-					ids = append(ids, it.H)
-				}
-			}
-			if len(ids) == 0 {
-				continue
-			}
-			id := ids[rng.Intn(len(ids))]
-			base, ok := sc.Handlers[id]
-			if !ok {
-				base = defaultScript(id)
-			}
-			pos := rng.Intn(len(base) + 1)
-			s := append([]Action{}, base[:pos]...)
-			s = append(s, Action{Op: "panic", S: rng.Pick(panicKinds)})
-			s = append(s, base[pos:]...)
-			rq.Over = map[string][]Action{id: s}
+			plantPanic(rng, sc, rq)
 		}
 		sc.Pool = PoolCfg{Policy: rng.Pick([]string{"lifo", "lifo", "dirty", "random", "fifo"}), Seed: rng.U64()}
 		sc.Sites = GenSites(rng)
@@ -137,6 +116,34 @@ func genC09(concurrent bool) func(rng *Rng, sc *Scenario) {
 			sc.Schedule, _ = GenSchedule(rng, nClients, 30*total)
 		}
 	}
+}
+
+// plantPanic dry-runs the request alone to learn which handlers run for it and
+// inserts a panic at a random position of one of them (as a per-request override).
+func plantPanic(rng *Rng, sc *Scenario, rq *Req) bool {
+	dry := SoloTwin(sc, rq, BuildOpt{})
+	var ids []string
+	seen := map[string]bool{}
+	for _, it := range dry.Trace {
+		if it.K == "enter" && !seen[it.H] && it.H != "p0" {
+			seen[it.H] = true
+			ids = append(ids, it.H)
+		}
+	}
+	if len(ids) == 0 {
+		return false
+	}
+	id := ids[rng.Intn(len(ids))]
+	base, ok := sc.Handlers[id]
+	if !ok {
+		base = defaultScript(id)
+	}
+	pos := rng.Intn(len(base) + 1)
+	s := append([]Action{}, base[:pos]...)
+	s = append(s, Action{Op: "panic", S: rng.Pick(panicKinds)})
+	s = append(s, base[pos:]...)
+	rq.Over = map[string][]Action{id: s}
+	return true
 }
 
 func checkC09(sc *Scenario) *CheckOut {
